@@ -55,6 +55,8 @@ var preludeDecls = []preludeDecl{
 	{"iface_str", "(declare-fun iface_str (Int) String)", nil},
 	{"ctx_done", "(declare-fun ctx_done (Int) Int)", nil},
 	{"chan_cap", "(declare-fun chan_cap (Int) Int)", nil},
+	{"rtype", "(declare-fun rtype (Int) String)", nil},
+	{"help_text", "(declare-fun help_text (Int) String)", nil},
 }
 
 var symRe = regexp.MustCompile(`[A-Za-z_][A-Za-z0-9_]*`)
@@ -288,7 +290,20 @@ var solvers = []solverCfg{
 	{"z3", func(f string, t int) []string { return []string{"z3", fmt.Sprintf("-T:%d", t), f} }},
 }
 
+// procSlots bounds the number of solver processes running at the same time (CPU contention turns
+// easy proofs into timeouts, i.e. into flaky failures).
+var procSlots = make(chan struct{}, 16)
+
 func runSolver(ctx context.Context, cfg solverCfg, file string, timeout int) solverResult {
+	select {
+	case procSlots <- struct{}{}:
+		defer func() { <-procSlots }()
+	case <-ctx.Done():
+		return solverResult{cfg.name, "cancelled", "", 0}
+	}
+	if ctx.Err() != nil {
+		return solverResult{cfg.name, "cancelled", "", 0}
+	}
 	argv := cfg.argv(file, timeout)
 	cctx, cancel := context.WithTimeout(ctx, time.Duration(timeout+2)*time.Second)
 	defer cancel()
@@ -300,7 +315,15 @@ func runSolver(ctx context.Context, cfg solverCfg, file string, timeout int) sol
 	_ = cmd.Run()
 	secs := time.Since(t0).Seconds()
 	txt := out.String()
-	first := strings.TrimSpace(strings.SplitN(txt, "\n", 2)[0])
+	first := ""
+	for _, ln := range strings.Split(txt, "\n") {
+		ln = strings.TrimSpace(ln)
+		if ln == "" || strings.HasPrefix(ln, "WARNING") {
+			continue
+		}
+		first = ln
+		break
+	}
 	ans := "error"
 	switch {
 	case first == "unsat":
@@ -533,53 +556,76 @@ func (e *Engine) solveOne(i int, o *Obligation, workdir string, timeout int, tho
 		}
 		return
 	}
-	// all three solvers race; the first definitive answer wins (thorough: all are heard, disagreement is an error)
-	ctx, cancel := context.WithCancel(context.Background())
-	defer cancel()
-	ch := make(chan solverResult, 6)
-	stage := solvers
-	for _, c := range stage {
-		go func(c solverCfg) { ch <- runSolver(ctx, c, fileFor(c), timeout) }(c)
-	}
-	// light variants (quantified assumptions pruned to the goal's definition closure): only unsat counts
-	lightN := 0
-	if len(o.Cmds) > 120 {
-		for _, c := range []solverCfg{solvers[0], solvers[1]} {
-			lightN++
-			go func(c solverCfg) {
-				f := fzl
-				if c.name == "cvc5" {
-					f = fcl
-				}
-				r := runSolver(ctx, c, f, timeout)
-				r.solver += "-light"
-				if r.answer != "unsat" {
-					r.answer = "light-" + r.answer
-				}
-				ch <- r
-			}(c)
-		}
-	}
+	// stage A: z3-new alone (it settles most obligations in well under a second)
 	var results []solverResult
 	var unsatBy, satBy *solverResult
-	for k := 0; k < len(stage)+lightN; k++ {
-		r := <-ch
+	if !thorough {
+		ta := timeout
+		if ta > 5 {
+			ta = 5
+		}
+		r := runSolver(context.Background(), solvers[0], fz, ta)
 		results = append(results, r)
 		rr := r
-		if r.answer == "unsat" && unsatBy == nil {
+		if r.answer == "unsat" {
 			unsatBy = &rr
-			if !thorough {
-				break
-			}
 		}
-		if r.answer == "sat" && satBy == nil {
+		if r.answer == "sat" {
 			satBy = &rr
-			if !thorough {
-				break
-			}
 		}
 	}
-	cancel()
+	if unsatBy == nil && satBy == nil {
+		// stage B: the other solvers and the light variants race; the first definitive answer wins
+		// (thorough: all are heard, a disagreement is an error)
+		ctx, cancel := context.WithCancel(context.Background())
+		ch := make(chan solverResult, 6)
+		n := 0
+		for _, c := range solvers {
+			if !thorough && c.name == "z3-new" {
+				continue
+			}
+			n++
+			go func(c solverCfg) { ch <- runSolver(ctx, c, fileFor(c), timeout) }(c)
+		}
+		if len(o.Cmds) > 120 {
+			for _, c := range []solverCfg{solvers[0], solvers[1]} {
+				n++
+				go func(c solverCfg) {
+					f := fzl
+					if c.name == "cvc5" {
+						f = fcl
+					}
+					r := runSolver(ctx, c, f, timeout)
+					r.solver += "-light"
+					if r.answer != "unsat" && r.answer != "cancelled" {
+						r.answer = "light-" + r.answer
+					}
+					ch <- r
+				}(c)
+			}
+		}
+		for k := 0; k < n; k++ {
+			r := <-ch
+			if r.answer == "cancelled" {
+				continue
+			}
+			results = append(results, r)
+			rr := r
+			if r.answer == "unsat" && unsatBy == nil {
+				unsatBy = &rr
+				if !thorough {
+					break
+				}
+			}
+			if r.answer == "sat" && satBy == nil {
+				satBy = &rr
+				if !thorough {
+					break
+				}
+			}
+		}
+		cancel()
+	}
 	var summary []string
 	for _, r := range results {
 		summary = append(summary, fmt.Sprintf("%s=%s(%.2fs)", r.solver, r.answer, r.secs))
